@@ -58,14 +58,15 @@ type KV struct {
 
 // Snapshot is the canonical projection of the whole world (everything sorted).
 type Snapshot struct {
-	Pods       []string       `json:"pods"`
-	Nodes      []NodeSnap     `json:"nodes"`
-	PluginOnly []string       `json:"plugin_only"` // nodes known to the plugin but absent from the store
-	Workloads  []WorkloadSnap `json:"workloads"`
-	Containers []ContSnap     `json:"containers"`
-	OpenWAL    []WalEntry     `json:"open_wal"`   // entries logged through the wrapper and not committed
-	Processing []KV           `json:"processing"` // processing markers (key below /processing, value = count)
-	Errors     []string       `json:"errors,omitempty"`
+	Pods           []string       `json:"pods"`
+	Nodes          []NodeSnap     `json:"nodes"`
+	PluginOnly     []string       `json:"plugin_only"`      // nodes known to the plugin but absent from the store
+	PluginOnlyInfo []NodeSnap     `json:"plugin_only_info"` // their capacity / usage
+	Workloads      []WorkloadSnap `json:"workloads"`
+	Containers     []ContSnap     `json:"containers"`
+	OpenWAL        []WalEntry     `json:"open_wal"`   // entries logged through the wrapper and not committed
+	Processing     []KV           `json:"processing"` // processing markers (key below /processing, value = count)
+	Errors         []string       `json:"errors,omitempty"`
 }
 
 func centi(f float64) int64 { return int64(math.Round(f * 100)) }
@@ -189,6 +190,12 @@ func (w *World) Snapshot() *Snapshot {
 			name := strings.TrimPrefix(string(kvp.Key), "/resource/cpumem/")
 			if !known[name] {
 				s.PluginOnly = append(s.PluginOnly, name)
+				ns := NodeSnap{Name: name, HasPlugin: true, Labels: []string{}, Diffs: []string{}}
+				if capa, usage, _, err := w.RawRmgr.GetNodeResourceInfo(ctx, name, nil, false); err == nil {
+					ns.CapCPU, ns.CapMem = cpumemOf(capa)
+					ns.UseCPU, ns.UseMem = cpumemOf(usage)
+				}
+				s.PluginOnlyInfo = append(s.PluginOnlyInfo, ns)
 			}
 		}
 		sort.Strings(s.PluginOnly)
